@@ -93,6 +93,9 @@ static int do_replay(const char* file, bool verbose) {
       rc = 1;
     }
     std::printf("R %llu %016llx\n", static_cast<unsigned long long>(p.seed), static_cast<unsigned long long>(ex.log_hash()));
+    std::fflush(stdout);
+    // after a violation the real world is not trustworthy: do not run its destructors
+    if (rc) _exit(1);
   }
   std::fflush(stdout);
   return rc;
@@ -169,6 +172,11 @@ int main(int argc, char** argv) {
         std::string path = out + "/seed-" + std::to_string(s) + "-" + profile + (faults ? "" : "-nofault") + ".replay";
         write_replay(path, p, &v, lh, "simH");
         std::printf("V %llu %s %s %s | %s\n", s, v.props.c_str(), v.oracle.c_str(), path.c_str(), one_line(v.text).c_str());
+        std::printf("R %llu %016llx %016llx %x %zu\n", s, static_cast<unsigned long long>(lh), static_cast<unsigned long long>(fph), mask, nops);
+        std::printf("STATS %s\n", total.to_json().c_str());
+        std::fflush(stdout);
+        // after a violation the real world is not trustworthy: do not run its destructors; the driver restarts us
+        _exit(3);
       }
     }
 #ifdef SIM_ASAN
